@@ -274,9 +274,18 @@ class Ctx:
             o = Obl(name, "undecided", None, secs, pid, detail or self.solver.reason_unknown(), "z3", kind)
             o.model = {"smt2": smt} if smt else None
             self.obls.append(o)
-        # continue the path under the assumption (standard assert-then-assume)
+        # continue the path under the assumption (standard assert-then-assume) - except where that would hide
+        # something: an obligation that is violated on this WHOLE path (its condition is plainly false here) leaves no
+        # state in which the assumption holds, so assuming it kills the path and every later obligation on it becomes
+        # vacuously true.  When the violation is a listed known finding (reported as KNOWN-FINDING, exit 0) a different
+        # defect further down the same path would then go unreported.  Such a path continues without the assumption.
+        if z3.is_false(c) or (r == z3.sat and not self._assumption_leaves_states(c)):
+            return False
         self.solver.add(c)
         return False
+
+    def _assumption_leaves_states(self, c) -> bool:
+        return self._check(c) != z3.unsat
 
     def cover(self, name: str) -> None:
         """Reachability marker (vacuity guard): the point is reached on a feasible path."""
